@@ -291,7 +291,7 @@ def _find_closures(text):
     """(start, body_open, body_close) of each block-bodied closure `|args| { .. }` in textual order"""
     msk = mask(text)
     res = []
-    for m in re.finditer(r"\|[A-Za-z0-9_,&: ]*\|\s*\{", msk):
+    for m in re.finditer(r"\|[A-Za-z0-9_,&:() ]*\|\s*\{", msk):
         bo = m.end() - 1
         depth = 0
         k = bo
